@@ -29,11 +29,12 @@ LENGTHS = [0, 1, 15, 16, 17, 31, 32, 33, 64, 1000]
 
 def BOUNDS(tier):
     return {'seeds': 6, 'ordered_pairs': 36, 'id_orders': 3, 'plaintext_lengths': LENGTHS, 'signature_bit_flips': 512,
-            'mnemonic_deviation_bound': 1 if tier == 'quick' else 2, 'mnemonic_horizon_draws': 40000, 'exhaustive': True}
+            'mnemonic_deviation_bound': 1 if tier == 'quick' else 2, 'mnemonic_horizon_draws': 40000, 'mnemonic_stream_family': 1024 if tier == 'quick' else 16384,
+            'conversation_depth': 3 if tier == 'quick' else 4, 'conversation_alphabet': '2 directions x plaintext lengths ' + str(HIST_LENGTHS), 'exhaustive': True}
 
 
 def REQUIRED_COVER(tier):
-    return {'ids:local>peer', 'ids:local<peer', 'ids:equal', 'pair:same-key', 'flip:sig', 'flip:msg', 'sign:resplit', 'mnemonic:deviation', 'wallet-key', 'derive-history', 'sign:encoders', 'mnemonic:keeps-drawing'}
+    return {'ids:local>peer', 'ids:local<peer', 'ids:equal', 'pair:same-key', 'flip:sig', 'flip:msg', 'sign:resplit', 'mnemonic:deviation', 'wallet-key', 'derive-history', 'sign:encoders', 'mnemonic:keeps-drawing', 'channel-history', 'mnemonic:stream-family'}
 
 
 # ------------------------------------------------------------------ reference derivations
@@ -122,6 +123,85 @@ def case_channel(rec, ia, ib, idmode, length):
     rec.state(('chan', ia, ib, idmode, length))
     if length:
         rec.nontriv(('chan', ia, ib, idmode, length))
+
+
+HIST_LENGTHS = [0, 1, 16, 17, 64, 1000]
+
+
+def case_channel_history(rec, ia, ib, idmode, depth, first=None):
+    """one pair of channel objects used for a whole conversation: ALL sequences of <= depth packets over (direction x plaintext length);
+    every packet equals the reference packet for its plaintext alone (a channel carries no state from packet to packet), the peer decrypts
+    it, and at the end every packet of the conversation decrypts again, in reverse order"""
+    from pytoniq_core.crypto.ciphers import AdnlChannel, Client, Server
+    import nacl.bindings as nb
+    rec.case('channel-history')
+    args = {'ia': ia, 'ib': ib, 'idmode': idmode, 'depth': depth, 'first': first}
+    sd = seeds(rec.seed)
+    sa, sb = sd[ia], sd[ib]
+    pa, pb = nb.crypto_sign_seed_keypair(sa)[0], nb.crypto_sign_seed_keypair(sb)[0]
+    shared = ref_shared(sa, pb)
+    events = [(d, L) for d in (0, 1) for L in HIST_LENGTHS]
+    plains = {L: filler(rec.seed, f'c20-plain-{L}', L) for L in HIST_LENGTHS}
+    # the third-party X25519 primitive (pure Python, ~3 ms) is memoised for this case: a pure function of its arguments, trusted
+    import x25519
+    if not hasattr(x25519.scalar_mult, '_memo'):
+        _orig, _memo = x25519.scalar_mult, {}
+
+        def scalar_mult(a, b):
+            k = (bytes(a), bytes(b))
+            if k not in _memo:
+                _memo[k] = _orig(a, b)
+            return _memo[k]
+        scalar_mult._memo = _memo
+        x25519.scalar_mult = scalar_mult
+    n = 0
+    for dlen in range(2, depth + 1):
+        for seq in itertools.product(events, repeat=dlen):
+            if first is not None and events.index(seq[0]) != first:
+                continue
+            ca, cb = Client(sa), Client(sb)
+            id_a, id_b = ca.get_key_id(), cb.get_key_id()
+            if idmode == 'swapped':
+                id_a, id_b = id_b, id_a
+            elif idmode == 'equal':
+                id_b = id_a
+            ch = [AdnlChannel(ca, Server('h', 1, pb), id_a, id_b), AdnlChannel(cb, Server('h', 1, pa), id_b, id_a)]
+            ids = [id_a, id_b]
+            sent = []
+            rec.trans(2 * dlen)
+            n += 1
+            for k, (d, L) in enumerate(seq):
+                enc_key = shared if ids[d] >= ids[1 - d] else shared[::-1]
+                try:
+                    pkt = ch[d].encrypt(plains[L])
+                    back = ch[1 - d].decrypt(pkt[64:], pkt[32:64])
+                except Exception as e:
+                    rec.violation('channel-history:raises', f'keys {ia},{ib} ids {idmode}: packet #{k} of the conversation {list(seq)} raised {exc_name(e)}: {e}', 'case_channel_history', args)
+                    return
+                if pkt != ref_packet(enc_key, plains[L]) or back != plains[L]:
+                    rec.violation('channel-history:packet', f'keys {ia},{ib} ids {idmode}: packet #{k} of the conversation {list(seq)} (direction, plaintext length) '
+                                  f'{"is not the reference packet for its plaintext" if pkt != ref_packet(enc_key, plains[L]) else "is decrypted to other bytes by the peer"} '
+                                  f'({len(pkt)} bytes, expected {64 + L}): the channel carries state between packets', 'case_channel_history', args)
+                    rec.outcome('HISTORY')
+                    return
+                sent.append((d, L, pkt))
+            for d, L, pkt in reversed(sent):
+                if ch[1 - d].decrypt(pkt[64:], pkt[32:64]) != plains[L]:
+                    rec.violation('channel-history:redecrypt', f'keys {ia},{ib} ids {idmode}: an earlier packet of the conversation {list(seq)} no longer decrypts', 'case_channel_history', args)
+                    return
+            rec.trace()
+    rec.state(('chanhist', ia, ib, idmode, depth, first))
+    rec.nontriv(('chanhist', ia, ib, idmode, depth, first))
+    rec.covered('channel-history')
+    rec.notes['conversations'] = rec.notes.get('conversations', 0) + n
+    rec.outcome('conversation-ok')
+
+
+def shard_channel_history(rec, ia, ib, depth, first=None):
+    for idmode in ('derived', 'swapped', 'equal'):
+        case_channel_history(rec, ia, ib, idmode, depth, first)
+    if not first:
+        rec.sample({'peers': [ia, ib], 'conversation': [[0, 1000], [0, 1], [1, 17]], 'oracle': 'every packet == reference packet of its plaintext; peer decrypts; all decrypt again at the end'})
 
 
 def shard_channels(rec, ia):
@@ -256,6 +336,8 @@ class Scripted:
             head = self.dev[k].to_bytes(2, 'big')
         elif self.stream == 'hash':
             head = hashlib.sha256(f'{self.seed}|draw|{k}'.encode()).digest()[:2]
+        elif self.stream.startswith('hash:'):        # the j-th member of the family of hash streams
+            head = hashlib.sha256(f'{self.seed}|{self.stream}|draw|{k}'.encode()).digest()[:2]
         elif self.stream == 'count':
             head = ((k * 7 + self.seed) % 65536).to_bytes(2, 'big')
         elif self.stream.startswith('dry:'):
@@ -287,7 +369,7 @@ def ref_wallet_key(wordlist):
     return bytes(k.verify_key), seed
 
 
-def case_mnemonic(rec, stream, deviations, derive=False):
+def case_mnemonic(rec, stream, deviations, derive=False, predict=True):
     import pytoniq_core.crypto.keys as K
     rec.case('mnemonic')
     dev = {int(k): int(v) for k, v in deviations.items()}
@@ -318,7 +400,7 @@ def case_mnemonic(rec, stream, deviations, derive=False):
     idx = [((b[0] << 8) | b[1]) & 0x7ff for b in src.log]
     groups = [idx[i:i + 24] for i in range(0, len(idx) - 23, 24)]
     predicted = None
-    for g in groups:
+    for g in (groups if predict else []):
         wl = [K.words[i] for i in g]
         if ref_basic_seed(wl):
             predicted = wl
@@ -330,7 +412,7 @@ def case_mnemonic(rec, stream, deviations, derive=False):
         rec.violation('mnemonic:invalid', f'generated mnemonic is not a basic seed by the reference check ({src.draws} draws)', 'case_mnemonic', args)
     if K.mnemonic_is_valid(words) is not True:
         rec.violation('mnemonic:is_valid', 'mnemonic_is_valid rejects a freshly generated mnemonic', 'case_mnemonic', args)
-    if predicted != words:
+    if predict and predicted != words:
         rec.violation('mnemonic:selection', f'generated mnemonic is not the first basic-seed word group of the random stream (draws {src.draws})', 'case_mnemonic', args)
     # negative: altering one word must (almost surely) invalidate; checked against the reference verdict, not assumed
     alt = list(words)
@@ -419,6 +501,17 @@ def shard_mnemonic(rec, stream, k, part, parts):
     rec.sample({'stream': stream, 'deviations': {'3': 0x07ff}, 'oracle': 'first basic-seed group of the scripted stream'})
 
 
+def shard_mnemonic_family(rec, lo, hi):
+    """the family of hash streams j = lo..hi-1, each to completion: about 256 distinct rejected candidates and one distinct accepted mnemonic
+    per stream - whatever mnemonic_new returns must be valid for mnemonic_is_valid and for the reference rule"""
+    for j in range(lo, hi):
+        case_mnemonic(rec, f'hash:{j}', {}, derive=False, predict=(j % 8 == 0))
+    rec.covered('mnemonic:stream-family')
+    rec.notes['mnemonic_streams'] = rec.notes.get('mnemonic_streams', 0) + hi - lo
+    if lo == 0:
+        rec.sample({'stream': 'hash:0', 'oracle': 'returned mnemonic: 24 list words, basic seed by the reference rule, accepted by mnemonic_is_valid; every 8th stream: it is the first basic-seed group of the stream'})
+
+
 def selftest():
     import os
     from .. import repo
@@ -431,9 +524,18 @@ def selftest():
 def shards(tier, seed):
     out = [{'fn': 'shard_channels', 'args': {'ia': i}} for i in range(6)]
     out.append({'fn': 'shard_sign', 'args': {}})
+    for ia, ib in ((0, 1), (1, 0), (2, 2)):
+        if tier == 'quick':
+            out.append({'fn': 'shard_channel_history', 'args': {'ia': ia, 'ib': ib, 'depth': 3}, 'prio': 2})
+        else:
+            for first in range(12):
+                out.append({'fn': 'shard_channel_history', 'args': {'ia': ia, 'ib': ib, 'depth': 4, 'first': first}, 'prio': 2})
     out.append({'fn': 'case_derive_history', 'args': {}, 'prio': 5})
     k = 1 if tier == 'quick' else 2
     parts = 12 if tier == 'quick' else 60
+    nstreams, per = (1024, 32) if tier == 'quick' else (16384, 128)
+    for lo in range(0, nstreams, per):
+        out.append({'fn': 'shard_mnemonic_family', 'args': {'lo': lo, 'hi': lo + per}, 'prio': 4})
     for n_dry in DRY_COUNTS:
         out.append({'fn': 'shard_mnemonic', 'args': {'stream': f'dry:{n_dry}', 'k': 0, 'part': 0, 'parts': 1}, 'prio': 4})
     for stream in ('hash', 'count'):
